@@ -139,6 +139,7 @@ func c13Pair[V univers.Version[V], VR univers.VersionRange[V]](e univers.Ecosyst
 	vv.Assume(ea == nil)
 	vb, eb := e.NewVersion(b)
 	vv.Assume(eb == nil)
+	vv.Reached()
 	vv.Assume(gemValid(a))
 	vv.Assume(gemValid(b))
 	vv.Assume(!vv.Known("KF-C13-gem-hyphen-not-pre", orb(hasHyphen(a), hasHyphen(b))))
